@@ -80,6 +80,20 @@ def _truth_tested_names(fn):
             mark(n.operand)
         elif isinstance(n, ast.Call) and (call_name(n) or "") in ("bool", "operator.truth", "truth") and len(n.args) == 1:
             mark(n.args[0])
+        elif isinstance(n, ast.Call) and isinstance(n.func, ast.Attribute) and n.func.attr in ("__bool__", "__len__") and not n.args:
+            mark(n.func.value)
+        elif isinstance(n, ast.Compare) and len(n.ops) == 1 and isinstance(n.ops[0], (ast.Eq, ast.NotEq)) and \
+                any(isinstance(x, ast.Constant) and not isinstance(x.value, bool) and x.value == 0 and isinstance(x.value, (int, float)) for x in (n.left, n.comparators[0])):
+            # `x != 0` / `x == 0` single the legal value 0 out exactly as the truth test does
+            mark(n.left)
+            mark(n.comparators[0])
+        elif isinstance(n, ast.Call) and (call_name(n) or "") in ("any", "all") and len(n.args) == 1 \
+                and isinstance(n.args[0], (ast.GeneratorExp, ast.ListComp)) and len(n.args[0].generators) == 1 \
+                and isinstance(n.args[0].generators[0].iter, (ast.Tuple, ast.List, ast.Set)) \
+                and isinstance(n.args[0].elt, ast.Name) and isinstance(n.args[0].generators[0].target, ast.Name) \
+                and n.args[0].elt.id == n.args[0].generators[0].target.id:
+            for v in n.args[0].generators[0].iter.elts:
+                mark(v)
         elif isinstance(n, ast.Call) and (call_name(n) or "") in ("any", "all") and len(n.args) == 1 and isinstance(n.args[0], (ast.Tuple, ast.List, ast.Set)):
             for v in n.args[0].elts:
                 mark(v)
@@ -180,12 +194,26 @@ def parameter_threaded(ctx, rel, rule, pname, min_calls=2):
             rebound = next((x for x in ast.walk(f) if isinstance(x, ast.Name) and x.id == pname and isinstance(x.ctx, (ast.Store, ast.Del))
                             or isinstance(x, (ast.FunctionDef, ast.AsyncFunctionDef, ast.ClassDef)) and x is not f and x.name == pname
                             or isinstance(x, ast.alias) and (x.asname or x.name).split(".")[0] == pname
-                            or isinstance(x, ast.arg) and x.arg == pname and not any(x is a_ for a_ in f.args.posonlyargs + f.args.args + f.args.kwonlyargs)), None)
+                            or isinstance(x, ast.arg) and x.arg == pname and not any(x is a_ for a_ in f.args.posonlyargs + f.args.args + f.args.kwonlyargs)
+                            or isinstance(x, (ast.MatchAs, ast.MatchStar)) and x.name == pname
+                            or isinstance(x, ast.MatchMapping) and x.rest == pname
+                            or isinstance(x, ast.ExceptHandler) and x.name == pname), None)
             ctx.ob(rule, rel, q, f"{cn}(.. {pname}={ast.unparse(arg) if arg is not None else '<default>'})",
                    isinstance(arg, ast.Name) and arg.id == pname and rebound is None,
                    f"`{pname}` given to {q.split('.')[-1]}() does not reach {cn}(): the callee works with " +
                    ("its default" if arg is None else ast.unparse(arg) + (f" (the name is bound again at line {getattr(rebound, 'lineno', '?')})" if rebound is not None else "")),
                    c.lineno)
+    # a function with the parameter that is mentioned but not called on the spot (functools.partial(f, ..), `(f if c else g)(..)`,
+    # stored in a table) is out of the reach of the rule above: its calls cannot be followed
+    for q, f in s.funcs.items():
+        direct = {id(c.func) for c in ast.walk(f) if isinstance(c, ast.Call)}
+        for x in ast.walk(f):
+            if isinstance(x, ast.Name) and isinstance(x.ctx, ast.Load) and x.id in sig and id(x) not in direct and x.id != q.split(".")[-1] \
+                    and not any(isinstance(a_, ast.arg) and a_.arg == x.id for a_ in ast.walk(f.args)):
+                n += 1
+                ctx.ob(rule, rel, q, f"{x.id} is called where it is named", False,
+                       f"`{x.id}` (it has the parameter `{pname}`) is passed on / wrapped instead of called: whether `{pname}` reaches it cannot be followed",
+                       x.lineno)
     ctx.floor(f"{rule}:{rel}", n, min_calls)
     return n
 
